@@ -81,6 +81,7 @@ class Ctx:
         self.violations = {}      # mechanism -> {"count": n, "witnesses": [...], "what": str}
         self.inconclusive = []    # reasons
         self.flags = {}           # e.g. exhaustive flags, extra coverage info
+        self.covers = {}          # name -> set of items reached (merged by union across shards)
         self.t0 = time.time()
         self.deadline = deadline  # wall-clock soft budget (a cap on work, never a verdict)
 
@@ -104,6 +105,10 @@ class Ctx:
 
     def nontrivial(self, key):
         self.nontrivial_keys.add(_h64(key))
+
+    def cover(self, name, item):
+        """Record that `item` of the finite class `name` was reached; the merged size becomes counter <name>_covered."""
+        self.covers.setdefault(name, set()).add(item if isinstance(item, (str, int)) else repr(item))
 
     def sample(self, case, force=False):
         if force or len(self.samples) < SAMPLES_PER_SHARD:
@@ -136,7 +141,7 @@ class Ctx:
             "evaluations": self.evaluations, "counters": self.counters,
             "nontrivial": sorted(self.nontrivial_keys), "samples": self.samples,
             "violations": self.violations, "inconclusive": self.inconclusive,
-            "flags": self.flags, "wall_s": time.time() - self.t0,
+            "flags": self.flags, "wall_s": time.time() - self.t0, "covers": self.covers,
         }
 
 
@@ -169,8 +174,10 @@ def run_child(args):
 
 def merge(results):
     merged = {"evaluations": 0, "counters": {}, "nontrivial": set(), "samples": [], "violations": {},
-              "inconclusive": [], "flags": {}}
+              "inconclusive": [], "flags": {}, "covers": {}}
     for r in results:
+        for k, v in r.get("covers", {}).items():
+            merged["covers"].setdefault(k, set()).update(v)
         merged["evaluations"] += r["evaluations"]
         for k, v in r["counters"].items():
             merged["counters"][k] = merged["counters"].get(k, 0) + v
@@ -196,6 +203,8 @@ def merge(results):
                 for item in v:
                     if item not in merged["flags"][k]:
                         merged["flags"][k].append(item)
+    for k, v in merged["covers"].items():
+        merged["counters"][k + "_covered"] = len(v)
     return merged
 
 
@@ -338,6 +347,7 @@ def finish(args, mod, merged, wall):
         "shards": args.shards or getattr(mod, "SHARDS", {}).get(args.tier, 1),
         "repo": env.HV_REPO,
     }
+    coverage["covered_classes"] = {k: sorted(v)[:80] for k, v in merged.get("covers", {}).items()}
     for k, v in merged["flags"].items():
         if k == "traceback":
             coverage["harness_traceback"] = v
